@@ -50,6 +50,29 @@ mod verif_c13 {
         std::mem::forget(st);
     }
 
+    // @harness id=C13 tier=quick timeout=900 mem=8
+    // @bounds small instance kept cheap so that a counter-example can always be extracted and replayed: 3 progress chars, c = 1, N <= 16, every f32 fraction in [0,1]: partial cell present iff 0 < fraction and filled < N; filled == floor(fraction * N) up to f32 rounding
+    #[kani::proof]
+    #[kani::unwind(12)]
+    //@STUBS std
+    fn c13_head_small() {
+        let st = rig_style(Vec::new(), ascii_set(2, 0), ascii_set(3, 0), 1);
+        let fract: f32 = kani::any();
+        kani::assume(fract >= 0.0 && fract <= 1.0);
+        let width: usize = kani::any();
+        kani::assume(width <= 16);
+        let d = st.format_bar(fract, width, None);
+        let exact = (fract as f64) * (width as f64);
+        let fl = exact as usize;
+        assert!(d.filled == fl || (d.filled == fl + 1 && (exact - fl as f64) > 0.99));
+        assert!(d.cur.is_some() == (fract > 0.0 && width > 0 && d.filled < width));
+        if let Some(c) = d.cur {
+            assert!(c < 3);
+        }
+        std::mem::forget(d);
+        std::mem::forget(st);
+    }
+
     // @harness id=C13 tier=quick timeout=2400 mem=10
     // @bounds pos, len over u64 with 1 <= len <= 2^24, N <= 65535, c in {1,2}: filled == cells  <=>  pos >= len; filled == 0 at pos == 0
     #[kani::proof]
